@@ -18,8 +18,33 @@ only where model and gcc agree:
                 duff          switch with a free-form body: case/default labels (<= 3 per switch, every shape of
                               SWITCH_SHAPES) on any statement at any depth of if/else, while, do, for, compound and
                               labelled statements (Duff's device), with break/continue/return/goto
+                names         the label NAME space: every program of goto / computed goto / if / if-else / compound /
+                              return (sizes 3-4, thorough 5) with >= 2 labels and a jump, x every ORDERED selection of label
+                              names from L, L1, L10, l1, XL1 and two 63-character names differing in the last character
+                              (prefixes, suffixes, case variants of each other; size 5 and four labels: the first four
+                              names): definition order = textual order, so every related pair is defined in both orders
+                              and is the target of goto and of &&label.  The interpreter knows labels by index only.
+                trap / trap2  operands that must NOT be evaluated, where evaluation is observable only by a TRAP: every leaf
+                              of if, if/else, while, do, for, V() x && || ?: GNU-?: , ! ({ }) ranges over C() and *gp<p>
+                              (null pointer), ga[gi<p>] (index into an unmapped page), 6 / gd<p> (run-time zero divisor) -
+                              each valid only while the tape bit read last equals its polarity p - and the pure operands 7,
+                              a global, sizeof of a trapping operand (trap: size 1, all 9; trap2: size 2, three to five of
+                              them).  None of them calls the recorder, so a compiler that evaluates an unselected ?: arm or
+                              a short-circuited operand "because it is pure" is seen only by SIGSEGV / SIGFPE: the driver
+                              runs every function under sigsetjmp and a signal is end state 5 of that run = VIOLATION.  A
+                              run on which the abstract machine itself evaluates an invalid operand is undefined: skipped
+                              and counted (skipped_undefined), neither twin is run on it.
+                dead          a statement that traps whenever executed (`gsink = *gnull;`) at every position of programs
+                              with goto / return / break / continue / loops / switch (sizes 2-3, thorough 4): dead code
+                              after and around jumps must stay dead
  (b) switch   controlling type x case-label sets from the thresholds x GNU ranges between neighbours x default
               placement, selector = every label bound -1/0/+1; oracle = Python model of 6.8.4.2p5 == gcc twin.
+              SHAPE family (lowering as a function of the shape of the label set): labels base + stride * p for p in EVERY
+              subset of a window {0..7} (thorough {0..8}) containing 0 = all shapes of 1..8 (9) labels - dense, one hole
+              at each position, several holes, sparse - x 11 (19) (type, base, stride) triples incl. sets straddling 0,
+              the range of char / unsigned char / short, 2^31, 2^32, 2^63 x default none / first / middle / last (every
+              position; descending and interleaved label order) + big sets of 16, 64, 300 (.. 1100) labels (dense, one
+              hole, two holes, every other value); selector = EVERY value from the smallest label - 2 to the largest + 2.
  (c) scope    models/c03_scope.py: every assignment of declarations of one name (ordinary identifier / tag / label) to
               the scope chain file > parameter > block > for-init > inner block, the tag declaration kinds being
               definitions (struct/union/enum) AND incomplete declarations (`struct x;`, first mention in a parameter list)
@@ -27,6 +52,8 @@ only where model and gcc agree:
               scope, function body, the controlling expression and the non-compound body of if/while/do/for/switch
               (C11 6.8.4p3, 6.8.5p5) or the parameter list of a function-pointer declarator / function declaration at
               block or file scope (6.2.1p4).  A probe after every scope entry and exit observes the ordinary binding, the
+              label binding (`goto x` with and without a DECOY label whose spelling is a prefix / extension / suffix-extension /
+              case variant of x, defined before or after x: the probes executed tell which statement was reached), the
               tag binding (sizeof where complete), the tag identity (pointer-to-incomplete compatibility via _Generic with
               the pointers declared next to every struct/union declaration) and objects of the type (last byte survives an
               assignment); oracle = innermost visible declaration model == gcc twin.
@@ -53,7 +80,7 @@ from vlib import core, twin
 from models import c03_trees as trees
 
 LEVEL = "exploration"
-BUDGET = {"quick": 600, "thorough": 2400}
+BUDGET = {"quick": 1200, "thorough": 6000}
 
 RT = os.path.join(core.VERIF, "harness/c03_rt.h")
 
@@ -161,12 +188,28 @@ CORE = {"ret": 1, "goto": 1, "label": 1, "for": (2,), "switch": [(0, "d"), ("d",
 # loops, compound, if, one switch shape, break/continue (+ return/goto/labels): the jump-target bookkeeping, one size deeper
 LOOPS = {"for": (1,), "switch": [(0, "d")]}
 LOOPSGOTO = {"ret": 1, "goto": 1, "label": 1, "for": (1,), "switch": [(0, "d")]}
+# label NAME space: programs of goto / computed goto / if / compound / return with >= 2 labels, each with every ordered selection
+# of label names from trees.LABEL_NAMES (prefixes, suffixes, case variants of each other, names differing in the 63rd character):
+# definition order = textual order, so every related pair of names occurs in both definition orders and as target of goto and &&
+NAMED = {"goto": 1, "cgoto": 1, "label": 1, "ret": 1, "blk3": 1, "noloops": 1, "names": 1}
+# operands that must NOT be evaluated, where evaluation is observable only by a trap: every leaf of every condition context and
+# expression form ranges over C(), the trapping operands (null-pointer dereference, index into an unmapped page, division by a
+# run-time zero - each valid only after the tape bit of its polarity), and pure operands (constant, global, sizeof of a trapping
+# operand) at no cost; TRAP2 = one nesting level deeper over a reduced operand set
+TRAP = {"for": (0,), "noblk": 1, "exprs": ALLOPS, "trapleaves": trees.TRAP_LEAVES}
+TRAP2 = {"for": (0,), "noblk": 1, "exprs": ALLOPS, "trapleaves": ("Dp1", "Dp0", "G")}
+TRAP2T = {"for": (0,), "noblk": 1, "exprs": ALLOPS, "trapleaves": ("Dp1", "Dp0", "Dx1", "Dv0", "G")}
+# dead code: a statement that traps when executed, after / around every jump (only programs containing it are kept)
+DEAD = {"ret": 1, "goto": 1, "label": 1, "blk3": 1, "for": (1,), "switch": [(0, "d")], "trapstmt": 1, "only": "X"}
 TREE_LAYERS = {
-    "quick": [("full", FULL, (0, 1, 2, 3), 4), ("loops+goto", LOOPSGOTO, (4,), 4), ("typed", TYPED, (1,), 4), ("duff", DUFF, (1, 2, 3), 4)],
+    "quick": [("full", FULL, (0, 1, 2, 3), 4), ("loops+goto", LOOPSGOTO, (4,), 4), ("typed", TYPED, (1,), 4), ("duff", DUFF, (1, 2, 3), 4),
+              ("names", NAMED, (3, 4), 4), ("trap", TRAP, (1,), 4), ("trap2", TRAP2, (2,), 4), ("dead", DEAD, (2, 3), 4)],
     "thorough": [("full", FULL, (0, 1, 2, 3), 6), ("core", CORE, (4,), 5), ("loops", LOOPS, (5,), 5), ("typed", TYPED, (1, 2), 5),
-                 ("duff", DUFF, (1, 2, 3), 6), ("duffdeep", DUFFDEEP, (4,), 5)],
+                 ("duff", DUFF, (1, 2, 3), 6), ("duffdeep", DUFFDEEP, (4,), 5),
+                 ("names", NAMED, (3, 4, 5), 5), ("trap", TRAP, (1,), 5), ("trap2", TRAP2T, (2,), 5), ("dead", DEAD, (2, 3, 4), 5)],
 }
-TREE_DECL = "int T(int); int Z(int); int C(void); int C2(void); int SEL(int); void V(long);\n" + trees.LEAF_DECL + "\n"
+TREE_DECL = ("int T(int); int Z(int); int C(void); int C2(void); int SEL(int); void V(long);\n" + trees.LEAF_DECL + "\n" +
+             trees.TRAP_DECL + "\n")
 
 PROGS = []        # filled in the parent before workers are forked: (layer name, L, tree)
 
@@ -177,7 +220,23 @@ def enum_trees(tier):
         g = trees.Gen(al)
         for n in sizes:
             for p in g.programs(n):
+                if "only" in al and not trees._count(p, al["only"]):
+                    continue
+                if "names" in al:
+                    if not (trees._count(p, "goto") or trees._count(p, "cgoto")):
+                        continue
+                    # sizes <= 4: all 7 names for two labels (thorough: also for three), size 5: the 4 core names
+                    for nm in trees.name_tuples(trees.count_labels(p), 0 if n > 4 else 1 if tier == "quick" else 2):
+                        out.append((name, L, trees.name_labels(p, nm)))
+                    continue
                 out.append((name, L, p))
+    # small (specialised) layers first: if the deadline stops the enumeration on an overloaded machine, what is cut is the
+    # tail of the largest generic layer, not a whole dimension
+    cnt = {}
+    for q in out:
+        cnt[q[0]] = cnt.get(q[0], 0) + 1
+    order = dict((nm, k) for k, nm in enumerate(sorted(cnt, key=lambda nm: (cnt[nm], nm))))
+    out.sort(key=lambda q: order[q[0]])          # stable: the order inside a layer is kept
     return out
 
 
@@ -317,11 +376,11 @@ def run_trees(ctx):
         random.Random(ctx.seed).shuffle(ranges)
     wd = ctx.mkdir("trees")
     args = [(ctx.chibicc, os.path.join(wd, "b%d" % i), "t", lo, hi) for i, (lo, hi) in enumerate(ranges)]
-    tot = dict(runs=0, judged=0, silent=0, odis=0, paths=0, budget=0, nontrivial=0)
+    tot = dict(runs=0, judged=0, silent=0, odis=0, paths=0, budget=0, nontrivial=0, undef=0)
     failing, rejected, ref_rejected = [], [], 0
     done = 0
     for grp in core.chunks(args, core.NPROC * 2):
-        if ctx.out_of_time(reserve=120):
+        if ctx.out_of_time(reserve=120 + BUDGET[ctx.tier] // 4):      # leave a quarter of the budget to the scope part
             ctx.incomplete("trees: deadline after %d of %d programs" % (done, total))
             break
         for name, code, out, err, kept, cc_rej, ref_rej in core.pmap(_tree_worker, grp):
@@ -333,10 +392,10 @@ def run_trees(ctx):
                 continue
             if code != 0:
                 raise core.HarnessError("tree driver failed: code=%s %s %s" % (code, err, out[-300:]))
-            m = re.search(r"^S runs=(\d+) judged=(\d+) silent=(\d+) odis=(\d+) paths=(\d+) budget=(\d+) nontrivial=(\d+)", out, re.M)
+            m = re.search(r"^S runs=(\d+) judged=(\d+) silent=(\d+) odis=(\d+) paths=(\d+) budget=(\d+) nontrivial=(\d+) undef=(\d+)", out, re.M)
             if not m:
                 raise core.HarnessError("no summary from tree driver")
-            for k, v in zip(("runs", "judged", "silent", "odis", "paths", "budget", "nontrivial"), m.groups()):
+            for k, v in zip(("runs", "judged", "silent", "odis", "paths", "budget", "nontrivial", "undef"), m.groups()):
                 tot[k] += int(v)
             for line in out.splitlines():
                 if line.startswith("O "):
@@ -367,9 +426,21 @@ def run_trees(ctx):
                           % (trees.Emit(t).function("p"), line, len(lst), trees.Emit(t0).function("p")), files=tree_files(L, t), replay=TREE_REPLAY)
     ctx.cover(tree_condition_operand_types="int C(), char, long (high bits only), float, double (-0.0 false), long double, pointer (high bits only)",
               tree_programs=done, tree_runs=tot["runs"], tree_runs_judged=tot["judged"], tree_paths=tot["paths"], tree_budget_cut_paths=tot["budget"],
-              tree_nontrivial_programs=tot["nontrivial"], skipped_silent_loop_runs=tot["silent"], tree_failing_programs=len(failing),
+              tree_nontrivial_programs=tot["nontrivial"], skipped_silent_loop_runs=tot["silent"], skipped_undefined=tot["undef"],
+              tree_label_names="layer names: every program of goto / computed goto / if / compound / return with >= 2 labels x every ordered "
+                               "selection of label names from %s (size 5 and 4 labels: the first 4; quick 3 labels: the first 4): prefixes, suffixes, "
+                               "case variants, names differing only in the 63rd character, in both definition orders, as goto and && targets"
+                               % ",".join(n if len(n) < 20 else n[:4] + ".." + n[-4:] for n in trees.LABEL_NAMES),
+              tree_trap_operands="layers trap / trap2: every leaf of if, if/else, while, do, for, V() x && || ?: GNU-?: , ! ({}) ranges over C() and "
+                                 "the operands %s (evaluation observable only by SIGSEGV / SIGFPE; a run on which the abstract machine evaluates an "
+                                 "invalid one is undefined and skipped); layer dead: a trapping statement `gsink = *gnull;` in every position of "
+                                 "programs with goto / return / break / continue / switch / loops (kept: programs containing it)"
+                                 % ", ".join("%s `%s`" % (k, v[0]) for k, v in trees.TRAP_TEXT.items()),
+              tree_failing_programs=len(failing),
               tree_failing_unshrunk=max(0, len(failing) - CAP), ref_rejected=ref_rejected, cc_rejected=len(rejected),
               tree_layers="; ".join("%s sizes %s L=%d: %d programs" % (n, list(s), L, sum(1 for q in PROGS if q[0] == n)) for n, a, s, L in TREE_LAYERS[ctx.tier]))
+    if ctx.exhaustive and any(q[0] == "trap" for q in PROGS) and not 0 < tot["undef"] < tot["runs"] // 4:
+        raise core.HarnessError("trees: trapping operands degenerate (%d undefined runs of %d)" % (tot["undef"], tot["runs"]))
     if ctx.exhaustive and (tot["judged"] < done or tot["nontrivial"] * 3 < done):
         raise core.HarnessError("trees: vacuous (%d programs, %d judged runs, %d non-trivial)" % (done, tot["judged"], tot["nontrivial"]))
     for k in (1, len(PROGS) // 2, len(PROGS) - 1):
@@ -422,8 +493,8 @@ def c_const(v):
 
 class SwCase:
     """items: list of ('c', (name, v)) or ('r', (name, lo), (name, hi)) in textual order; dflt: section index of default or None"""
-    def __init__(self, ty, ctl, items, dflt):
-        self.ty, self.ctl, self.items, self.dflt = ty, ctl, items, dflt
+    def __init__(self, ty, ctl, items, dflt, dense=False):
+        self.ty, self.ctl, self.items, self.dflt, self.dense = ty, ctl, items, dflt, dense
 
     def sections(self):
         secs = [("item", it) for it in self.items]
@@ -443,9 +514,23 @@ class SwCase:
             if k == "default": lab = "default"
             elif x[0] == "c": lab = "case %s" % c_const(x[1][1])
             else: lab = "case %s ... %s" % (c_const(x[1][1]), c_const(x[2][1]))
-            body.append("%s: r = r * 8 + %d;" % (lab, j + 1))
+            body.append("%s: r = r * %d + %d;" % (lab, self.mult(), j + 1))
         ctl = "v" if self.ctl == "var" else "(%s)sel" % T
-        return "long %s(long sel) { %s v = (%s)sel; long r = 1; switch (%s) { %s } return r + 0 * (long)v; }" % (name, T, T, ctl, " ".join(body))
+        return "long %s(long sel) { %s v = (%s)sel; %s r = 1; switch (%s) { %s } return (long)r + 0 * (long)v; }" % (
+            name, T, T, "unsigned long" if self.dense else "long", ctl, " ".join(body))
+
+    def mult(self):
+        """sections entered at j and falling through give r = fold(r * mult + k): base 8 digits for the small sets; the shape family
+        (up to 1100 sections) folds modulo 2^64 with an odd multiplier (unsigned long r), so no section is shifted out"""
+        return 1000003 if self.dense else 8
+
+    def result(self, entry):
+        r = 1
+        if entry is not None:
+            for j in range(entry, len(self.sections())):
+                r = r * self.mult() + j + 1
+                if self.dense: r &= (1 << 64) - 1
+        return wrap(r, 64, True)
 
     def model(self, sel):
         """C11 6.8.4.2p5: labels converted to the promoted type of the controlling expression; returns (result, entry section or None)"""
@@ -461,11 +546,7 @@ class SwCase:
             elif wrap(x[1][1], pb, ps) <= pv <= wrap(x[2][1], pb, ps): entry = j
         if entry is None and self.dflt is not None:
             entry = self.dflt
-        r = 1
-        if entry is not None:
-            for j in range(entry, len(secs)):
-                r = r * 8 + j + 1
-        return r, entry
+        return self.result(entry), entry
 
     def selectors(self):
         bits, signed = self.ty[2], self.ty[3]
@@ -480,22 +561,92 @@ class SwCase:
             for b in x[1:]:
                 for d in (-1, 0, 1):
                     add(b[1] + d); add(wrap(b[1], pb, ps) + d)
+        if self.dense:          # shape family: EVERY value from the smallest label - 2 to the largest + 2, all holes included
+            conv = [wrap(b[1], pb, ps) for x in self.items for b in x[1:]]
+            if max(conv) - min(conv) <= 3000:
+                for v in range(min(conv) - 2, max(conv) + 3):
+                    add(v)
         return out
 
     def shrinks(self):
         out = []
+        n = len(self.items)
+        def without(lo, hi):            # drop items[lo:hi]; the default keeps its place among the remaining sections
+            d = self.dflt
+            if d is not None:
+                d = d - (hi - lo) if d >= hi else lo if d > lo else d
+            return SwCase(self.ty, self.ctl, self.items[:lo] + self.items[hi:], d, self.dense)
+        if n > 4:                       # large label sets: halves and quarters first
+            for k in (2, 4):
+                for q in range(k):
+                    if n * q // k < n * (q + 1) // k < n or q:
+                        out.append(without(n * q // k, n * (q + 1) // k))
         if self.dflt is not None:
-            out.append(SwCase(self.ty, self.ctl, self.items, None))
-        if len(self.items) > 1:
-            for j in range(len(self.items)):
-                d = self.dflt
-                if d is not None and d > j: d -= 1
-                out.append(SwCase(self.ty, self.ctl, self.items[:j] + self.items[j + 1:], d))
+            out.append(SwCase(self.ty, self.ctl, self.items, None, self.dense))
+        if n > 1:
+            for j in range(n):
+                out.append(without(j, j + 1))
         for j, x in enumerate(self.items):
             if x[0] == "r":
-                out.append(SwCase(self.ty, self.ctl, self.items[:j] + [("c", x[1])] + self.items[j + 1:], self.dflt))
-                out.append(SwCase(self.ty, self.ctl, self.items[:j] + [("c", x[2])] + self.items[j + 1:], self.dflt))
-        return out
+                out.append(SwCase(self.ty, self.ctl, self.items[:j] + [("c", x[1])] + self.items[j + 1:], self.dflt, self.dense))
+                out.append(SwCase(self.ty, self.ctl, self.items[:j] + [("c", x[2])] + self.items[j + 1:], self.dflt, self.dense))
+        return [c for c in out if c.items]
+
+
+# SHAPE family: switch lowering as a function of the shape of the label set.  A label set is base + stride * p for p in a
+# subset of a window {0..W-1} that contains 0: all 2^(W-1) subsets = every shape with 1..W labels (dense run, one hole at every
+# position, several holes, sparse) x (controlling type, base, stride) x default none / at every position (quick: none / first /
+# middle / last) x textual order of the labels (thorough: also descending and interleaved); plus BIG label sets (dense, one
+# hole, two holes, every other value).  Selectors: every value from the smallest label - 2 to the largest + 2.
+SHAPE_W = {"quick": 8, "thorough": 9}
+SHAPE_CFG = {
+    "quick": [("int", 0, 1), ("int", -3, 1), ("int", 0, 3), ("char", -4, 1), ("uchar", 250, 1), ("short", 32764, 1), ("uint", 2 ** 31 - 4, 1),
+              ("long", 2 ** 32 - 4, 1), ("long", -3, 2), ("ulong", 2 ** 63 - 4, 1), ("enum", -1, 1)],
+    "thorough": [("int", 0, 1), ("int", -3, 1), ("int", 0, 2), ("int", 0, 3), ("int", 2 ** 31 - 9, 1), ("char", -4, 1), ("char", 120, 1),
+                 ("uchar", 250, 1), ("short", 32764, 1), ("short", -5, 3), ("uint", 2 ** 31 - 4, 1), ("uint", 2 ** 32 - 9, 1),
+                 ("long", 2 ** 32 - 4, 1), ("long", -3, 2), ("long", -2 ** 31 - 4, 1), ("long", 2 ** 63 - 9, 1), ("ulong", 2 ** 63 - 4, 1),
+                 ("ulong", 2 ** 64 - 9, 1), ("enum", -1, 1)],
+}
+BIG_N = {"quick": (16, 64, 300), "thorough": (16, 17, 33, 64, 256, 300, 1100)}
+BIG_CFG = [("int", -5), ("long", 2 ** 32 - 8), ("ulong", 2 ** 63 - 8)]
+
+
+def enum_shapes(tier):
+    TY = dict((t[0], t) for t in SW_TYPES)
+    out = []
+    def mk(ty, vals, d, order="asc"):
+        its = [("c", (str(v), v)) for v in vals]
+        if order == "desc": its.reverse()
+        elif order == "mix": its = its[1::2] + its[0::2]
+        return SwCase(ty, "var", its, d, True)
+    W = SHAPE_W[tier]
+    for tn, base, stride in SHAPE_CFG[tier]:
+        for m in range(1, 1 << W, 2):
+            vals = [base + stride * p for p in range(W) if m >> p & 1]
+            n = len(vals)
+            dpos = sorted(set([0, n // 2, n])) if tier == "quick" else list(range(n + 1))
+            for d in [None] + dpos:
+                out.append(mk(TY[tn], vals, d))
+            if tier != "quick" and n > 1:
+                for order in ("desc", "mix"):
+                    for d in (None, n):
+                        out.append(mk(TY[tn], vals, d, order))
+    for tn, base in BIG_CFG:
+        for n in BIG_N[tier]:
+            shapes = [list(range(n)), [p for p in range(n + 1) if p != n // 2], [p for p in range(n + 2) if p not in (1, n - 1)],
+                      list(range(0, 2 * n, 2))]
+            for sh in shapes:
+                for d in (None, len(sh)):
+                    out.append(mk(TY[tn], [base + p for p in sh], d))
+    seen, uniq = set(), []
+    for c in out:                   # the same label set can arise from two strides
+        if c.cid() not in seen:
+            seen.add(c.cid()); uniq.append(c)
+    for c in uniq[::37]:            # the fold must tell every entry point apart
+        rs = [c.result(j) for j in [None] + list(range(len(c.sections())))]
+        if len(set(rs)) != len(rs):
+            raise core.HarnessError("switch shapes: result fold is not injective for " + c.cid()[:80])
+    return uniq
 
 
 def enum_switch(tier):
@@ -525,7 +676,7 @@ def enum_switch(tier):
                         for d in dpos:
                             for ctl in (("var",) if tier == "quick" and d not in (None, 0) else ("var", "cast")):
                                 cases.append(SwCase(ty, ctl, its, d))
-    return cases, collide
+    return cases + enum_shapes(tier), collide
 
 
 def build_switch_batch(cases):
@@ -574,20 +725,25 @@ def switch_sig(c, status):
             return "int" if -(1 << 31) <= b[1] < (1 << 31) else "wide"
         return "case:" + cls(x[1]) if x[0] == "c" else "range:%s...%s" % (cls(x[1]), cls(x[2]))
     secs = c.sections()
+    def seclist():                  # runs of more than 4 equal section classes are written class*N
+        out = []
+        for k, x in secs:
+            n = it(k, x)
+            if out and out[-1][0] == n: out[-1][1] += 1
+            else: out.append([n, 1])
+        return ",".join(",".join([n] * k) if k <= 4 else "%s*%d" % (n, k) for n, k in out)
     if status[0] == "R":
-        return "C03|switch|%s|%s|rejected:%s:%s" % (c.ty[0], ",".join(it(k, x) for k, x in secs), status[1], status[2])
+        return "C03|switch|%s|%s|rejected:%s:%s" % (c.ty[0], seclist(), status[1], status[2])
     sel, got = status[1], status[2]
     want, entry = c.model(sel)
     w = it(*secs[entry]) if entry is not None else "none"
     g = "signal" if got == "signal" else "invalid"
     if got != "signal":
         for j in [None] + list(range(len(secs))):
-            r = 1
-            if j is not None:
-                for q in range(j, len(secs)): r = r * 8 + q + 1
+            r = c.result(j)
             if r == int(got):
                 g = it(*secs[j]) if j is not None else "none"
-    return "C03|switch|%s|%s|enters:%s,want:%s" % (c.ty[0], ",".join(it(k, x) for k, x in secs), g, w)
+    return "C03|switch|%s|%s|enters:%s,want:%s" % (c.ty[0], seclist(), g, w)
 
 
 SW_REPLAY = ("$CHIBICC -DPFX=cc_ -c -o cc.o unit.c || exit 1\n"
@@ -683,7 +839,17 @@ def run_switch(ctx):
     ctx.cover(switch_cases=done, switch_evaluations=tot["evals"], switch_judged=tot["judged"], switch_nontrivial=tot["nontrivial"],
               switch_failing_cases=len(failing), switch_failing_unshrunk=max(0, len(failing) - CAP), skipped_colliding_label_sets=collide,
               switch_bounds="types %s; label sets of <= %d labels from the 11 thresholds; singles and GNU ranges between neighbours; default %s; selector = every bound -1/0/+1 before and after conversion"
-                            % (",".join(t[0] for t in SW_TYPES), 2 if ctx.tier == "quick" else 3, "none/first/last" if ctx.tier == "quick" else "none/every position, ascending and descending label order"))
+                            % (",".join(t[0] for t in SW_TYPES), 2 if ctx.tier == "quick" else 3, "none/first/last" if ctx.tier == "quick" else "none/every position, ascending and descending label order"),
+              switch_shape_cases=sum(1 for c in SW_CASES if c.dense),
+              switch_shape_bounds="label set = base + stride * p, p in EVERY subset of {0..%d} containing 0 (1..%d labels: dense, one hole at each position, "
+                                  "several holes, sparse) x (type, base, stride) in %s x default %s; plus big sets of n in %s labels (dense, one hole, two holes, "
+                                  "every other value; default none/last) for (type, base) in %s; selector = EVERY value from the smallest label - 2 to the "
+                                  "largest + 2 (all holes), plus the bounds -1/0/+1 before conversion"
+                                  % (SHAPE_W[ctx.tier] - 1, SHAPE_W[ctx.tier], SHAPE_CFG[ctx.tier],
+                                     "none/first/middle/last" if ctx.tier == "quick" else "none/every position; descending and interleaved label order with default none/last",
+                                     BIG_N[ctx.tier], BIG_CFG))
+    if ctx.exhaustive and not any(c.dense and len(c.items) >= 8 for c in SW_CASES):
+        raise core.HarnessError("switch: the shape family is empty")
     if ctx.exhaustive and tot["judged"] < done:
         raise core.HarnessError("switch: vacuous (%d cases, %d judged evaluations)" % (done, tot["judged"]))
     ctx.sample({"switch_case": SW_CASES[len(SW_CASES) // 3].source("s"), "selectors": SW_CASES[len(SW_CASES) // 3].selectors()}, limit=14)
@@ -745,6 +911,8 @@ def scope_sig(c, st):
     if pd:          # the wrong value is explained by a reference INSIDE the declaration that x (correctly) denotes at the site
         return "C03|scope|point-of-declaration|%s" % pd
     where = c.site_name(site) + ("+goto" if mode and c.family == "chain" else "")
+    if mode and getattr(c, "decoy", ""):        # a label with a related spelling is defined too: goto x reached the wrong statement
+        return "C03|scope|label|goto-x-with-%s-label|%s" % (c.decoy, "skips-more" if int(got) == scope.UNSET else "skips-less" if want == scope.UNSET else "wrong-value")
     if c.family == "stmt":
         where = c.kw + ":" + where
     return "C03|scope|%s|at:%s|binds:%s,want:%s" % (scope.SLOT_NAMES[slot], where, c.decode(slot, int(got)), c.decode(slot, want))
@@ -849,6 +1017,9 @@ def run_scope(ctx):
               scope_bounds="chain file>parameter>block>for-init>for-body: ordinary x in none/object/typedef/enumerator, tag x in none/struct/union/enum/"
                            "sfwd/ufwd (`struct x;` incomplete, never completed)/sfwdc/ufwdc (completed later at the same level) per level "
                            "(parameter level: first mention `struct x *p`, completed by a definition in the body), label x in none/block/for-body; "
+                           "label NAME space: next to the label x<i> a decoy label spelled x (prefix) / x<i>0 (extension) / yx<i> (suffix) / X<i> (case variant), "
+                           "defined before or after x<i>, in every chain with a file-scope ordinary x and at most %d declarations (%d cases); "
+                           % (2 if ctx.tier == "quick" else 3, sum(1 for c in SC_CASES if getattr(c, "decoy", "")))
                            + ("at most 3 declarations (labels with at most 2)" if ctx.tier == "quick" else
                               "at most 5 declarations (labels with at most 4) plus all combinations of the definition kinds") +
                            "; 11 probe sites, run with and without goto x.  stmt: if/while/do/for/switch with declarations (tag struct/union/enum, enumerator) "
